@@ -536,7 +536,7 @@ func (a *AMF) onRegistrationRequest(ran uint64, plain []byte, what string) ([]dl
 	if idx >= len(a.sc.UEs) {
 		return nil, what, a.viol("prerequisite:register", "%s: registration of a %d. UE, the scenario provisions %d", what, idx+1, len(a.sc.UEs))
 	}
-	a.obs("ngKSI=%d registration type=0x%x", m.NgKSI, m.RegType)
+	a.obs("ngKSI=%d registration type=0x%x; optional IEs outside a NAS message container: %s", m.NgKSI, m.RegType, ieiList(m.Opt))
 	id := m.Identity
 	if id.Type != 1 || id.SUPIFormat != 0 {
 		return nil, what, a.viol("suci-type", "%s: 5GS mobile identity type %d / SUPI format %d, expected a SUCI with SUPI format IMSI", what, id.Type, id.SUPIFormat)
@@ -649,7 +649,8 @@ func (a *AMF) onServiceRequest(u *ue, nas []byte, what string) ([]dlMsg, string,
 	if err != nil {
 		return nil, what, a.viol("nas-decode", "%s: %v", what, err)
 	}
-	a.obs("service type=%d ngKSI=%d (AMF assigned %d) 5G-S-TMSI raw=%x (assigned GUTI %x)", m.ServiceType, m.NgKSI, u.ch.NgKSI, m.Identity.Raw, u.guti)
+	a.obs("Service Request arrives in an InitialUEMessage while this AMF still holds the UE's N2 context; the UE is found by its RAN-UE-NGAP-ID and proven by the NAS MAC")
+	a.obs("service type=%d ngKSI=%d (AMF assigned %d) 5G-S-TMSI raw=%x (assigned GUTI %x); optional IEs outside a NAS message container: %s", m.ServiceType, m.NgKSI, u.ch.NgKSI, m.Identity.Raw, u.guti, ieiList(m.Opt))
 	if ie := findIE(m.Opt, 0x40); ie != nil {
 		a.obs("uplink data status=%x (session identity of this UE: %d, state %d)", ie.Value, u.psi, u.sess)
 	}
@@ -1075,6 +1076,9 @@ func (a *AMF) onICSResponse(p *iewalk.PDU) (string, *Violation) {
 		return what + " (registration)", nil
 	case u.pendingSvcICS:
 		u.pendingSvcICS = false
+		if len(items) > 0 && !(u.ch.Has(OptSvcReactivate) && u.sess == ssActive) {
+			a.obs("the response lists %d session(s) although the request carried no PDUSessionResourceSetupListCxtReq", len(items))
+		}
 		for _, it := range items {
 			if u.sess == ssActive || u.sess == ssReleasePending {
 				if it.PDUSessionID != u.psi {
@@ -1281,3 +1285,14 @@ func (a *AMF) UE(k int) *UEInfo {
 	return &UEInfo{SUPI: u.supi, RANID: u.ranID, AMFID: u.amfID, PSI: u.psi, UEIP: u.ueIP, UPFIP: u.upfIP, TEID: u.ch.TEID, Active: u.sess == ssActive}
 }
 func (a *AMF) NumUEs() int { return len(a.ues) }
+
+func ieiList(l []OptIE) string {
+	if len(l) == 0 {
+		return "none"
+	}
+	var out []string
+	for _, ie := range l {
+		out = append(out, fmt.Sprintf("0x%02x", ie.IEI))
+	}
+	return fmt.Sprint(out)
+}
